@@ -27,6 +27,11 @@ import (
 //   - no reverse statement is an ALTER TABLE without a clause or declares an index without key parts.
 // Extra clauses in the reverse (restoring an AUTO_INCREMENT counter the differ does not track downwards) are allowed.
 
+var (
+	reColDef  = regexp.MustCompile("^(ADD|MODIFY|CHANGE) COLUMN ")
+	reCharset = regexp.MustCompile(" (CHARSET|COLLATE) \\w+")
+)
+
 var reAlter = regexp.MustCompile("(?s)^ALTER TABLE ((?:[`\"][^`\"]+[`\"]\\.)?[`\"][^`\"]+[`\"])\\s*(.*)$")
 
 // splitTop splits at top-level commas (outside parentheses and quotes).
@@ -67,6 +72,12 @@ func atoms(stmts []string) (out []string, malformed []string) {
 			continue
 		}
 		for _, cl := range splitTop(m[2]) {
+			// MySQL column definitions: the planner writes a column's CHARSET / COLLATE only when it differs from the table's
+			// at planning time, and the table's own character set may change in the same plan; whether two spellings
+			// denote the same column depends on that context, so the character set of a column definition is not compared
+			if reColDef.MatchString(cl) {
+				cl = reCharset.ReplaceAllString(cl, "")
+			}
 			// DROP PRIMARY KEY, ADD PRIMARY KEY (...) is one MySQL idiom written with a comma
 			out = append(out, m[1]+": "+cl)
 			if regexp.MustCompile("(?i)\\bINDEX [`\"][^`\"]+[`\"] \\(\\)").MatchString(cl) {
@@ -180,8 +191,8 @@ func checkInverse(c GCase) (IOutcome, error) {
 			ks = append(ks, k)
 		}
 		sort.Strings(ks)
-		return out, fmt.Errorf("%s: the reverse statements of a plan that is reported reversible lack what Atlas itself plans for the way back (missing-kinds: %v):\n    %s\n  plan of desired -> current:\n    %s%s",
-			c.Dialect, ks, strings.Join(missing, "\n    "), strings.Join(inv, "\n    "), show())
+		return out, fmt.Errorf("%s: the reverse statements of a plan that is reported reversible lack what Atlas itself plans for the way back (missing-kinds: %s):\n    %s\n  plan of desired -> current:\n    %s%s",
+			c.Dialect, strings.Join(ks, "|"), strings.Join(missing, "\n    "), strings.Join(inv, "\n    "), show())
 	}
 	return out, nil
 }
